@@ -30,7 +30,7 @@ ASSUMPTIONS = ["solver contract: success => feasible within tolerance"]
 # ---------------------------------------------------------------------------------------------------
 # A. validation
 # ---------------------------------------------------------------------------------------------------
-DEFECTS = ["none", "none", "none", "none", "tmin_below_range", "tmin_eq_lo", "tmax_above_range", "tmax_eq_hi",
+DEFECTS = ["non_monotone_chain_min", "non_monotone_chain_max","none", "none", "none", "none", "tmin_below_range", "tmin_eq_lo", "tmax_above_range", "tmax_eq_hi",
            "nominal_zero", "nominal_negative", "weight_zero", "critical_minimisation", "no_range", "range_on_min",
            "series_on_point", "negative_relax", "relax_keep_soft", "non_monotone_min", "non_monotone_max",
            "min_gt_max", "lo_ge_hi", "tmin_above_hi"]
@@ -119,6 +119,18 @@ def gen_vcase(rng):
         a["prio"], b["prio"] = 1, 2
         if a["tmax"] is not None and b["tmax"] is not None and not isinstance(a["tmax"], list) and not isinstance(b["tmax"], list):
             a["tmax"], b["tmax"] = "3", "5"
+    elif defect in ("non_monotone_chain_min", "non_monotone_chain_max"):
+        # three goals on one quantity: the third is fine against the first but not against the second
+        while len(goals) < 3:
+            goals.append(json.loads(json.dumps(goals[0])))
+        key = "tmin" if defect.endswith("min") else "tmax"
+        vals = ["-6", "-2", "-4"] if key == "tmin" else ["8", "2", "5"]
+        if rng.random() < 0.3:
+            vals = ["-6", "-4", "-2"] if key == "tmin" else ["8", "5", "2"]      # the monotone control
+        for i, g in enumerate(goals[:3]):
+            g.update({"fk": 7, "prio": i + 1, "critical": False, "lo": -10.0, "hi": 10.0, "tmin": None, "tmax": None,
+                      "smin": False, "smax": False, "relax": 0})
+            g[key] = vals[i]
     elif defect == "min_gt_max" and t["tmin"] is not None and t["tmax"] is not None and not isinstance(t["tmin"], list) and not isinstance(t["tmax"], list):
         t["tmin"], t["tmax"] = "4", "2"
     elif defect == "lo_ge_hi" and has_t:
@@ -274,6 +286,24 @@ def conflict_probe(ctx):
                       what="critical goal y >= 5 at priority 2 conflicts with y <= 3 retained from priority 1: optimize() returned True with y = %s" % [round(float(v), 4) for v in y])
 
 
+def gen_critical_pair_case(rng):
+    """two critical goals on one quantity (a lower and an upper one, listed in either order), then a
+    priority that pushes against one of them: both must hold in every solution"""
+    n = rng.choice([2, 3])
+    E = rng.choice([1, 1, 2])
+    fn = rng.choice(["y", "z"])
+    lo, hi = float(rng.randint(-4, 1)), float(rng.randint(2, 6))
+    path = rng.random() < 0.7
+    k = rng.randrange(n)
+    a = {"path": path, "fn": fn, "prio": 1, "k": k, "order": 2, "weight": 1, "nominal": 1, "tmin": lo, "critical": True, "fk": "crit"}
+    b = {"path": path, "fn": fn, "prio": 1, "k": k, "order": 2, "weight": 1, "nominal": 1, "tmax": hi, "critical": True, "fk": "crit"}
+    pair = [a, b] if rng.random() < 0.5 else [b, a]
+    up = rng.random() < 0.5
+    push = {"path": path, "fn": fn, "prio": 2, "k": k, "order": rng.choice([1, 2]), "weight": 1, "nominal": 1, "fk": "push"}
+    push.update({"tmin": 11.0} if up else {"tmax": -11.0})
+    return {"k": "run", "times": list(range(n)), "E": E, "p": [0, "1/2"][:E], "variant": "multi", "goals": pair + [push], "options": {}}
+
+
 def gen_shift_case(rng):
     """violation variables that stay variables: a met order-1 path goal, then a later priority that would
     gain from shifting violation between time steps if the violation variables were not kept in [0, 1]"""
@@ -306,6 +336,8 @@ def run(ctx):
             cases.append(c02.gen_run(ctx.rng))
         for _ in range(ctx.n(6, 150)):
             cases.append(gen_shift_case(ctx.rng))
+        for _ in range(ctx.n(6, 150)):
+            cases.append(gen_critical_pair_case(ctx.rng))
     vc = [c for c in cases if c.get("k") == "validate"]
     if vc:
         impl = [impl_validate(c) for c in vc]
